@@ -405,6 +405,31 @@ func fpCorrupt(exe, dir string, rnd *rand.Rand) []map[string]any {
 		}
 		mk("stamp-spliced", append(append([]byte(nil), raw[:a]...), raw[b:]...))
 	}
+	// structured damage: every argument-less opcode of the record replaced by another value-producing
+	// one (an empty tuple becomes None, a list, a dict, an int), which keeps the pickle decodable
+	// while the unpickled shapes are no longer what envUnpickler expects
+	{
+		subs := map[byte][]byte{')': {'N', ']', '}'}, ']': {'N', ')'}, '}': {'N', ')'}, 'N': {')', ']'}, 0x88: {'N'}, 0x89: {')'}}
+		done := 0
+		for i := 0; i < len(raw) && done < 40; i++ {
+			alts, ok := subs[raw[i]]
+			if !ok || (i > 0 && (raw[i-1] == 'K' || raw[i-1] == 'h' || raw[i-1] == 'C' || raw[i-1] == 0x8c)) {
+				continue // (skips most argument bytes that merely look like an opcode)
+			}
+			alt := alts[rnd.Intn(len(alts))]
+			r := append([]byte(nil), raw...)
+			r[i] = alt
+			mk("stamp-opcode-substituted", r)
+			done++
+		}
+	}
+	// the stamp's envelope: no run-ID separator, a separator only, an old-format stamp
+	for _, d := range []string{strings.TrimSuffix(prefix, ":") + stamp, stamp, ":", prefix, strings.Replace(prefix, ":", "", 1)} {
+		ni := info
+		ni.Data = d
+		b, _ := json.Marshal(ni)
+		cs = append(cs, corruption{"stamp-envelope", b, d == stamp})
+	}
 	mk("stamp-garbage", []byte("\x80\x81\x82 not a pickle"))
 	mk("stamp-wrong-shape", []byte("\x8c\x04dawn\x8c\x0cFunctionCode\x93K\x01K\x02K\x03\x87\x81."))
 	// base64-level and file-level damage
